@@ -88,6 +88,15 @@ main(int argc, char** argv)
         if (in_shrink && (st.shrink_evals > shrink_budget || fe::now_s() - shrink_t0 > shrink_secs))
             return; // shrink budget used up: remaining candidates count as passing, the best so far stays
         cur.put(tape.data(), tape.size());
+        // VH_DUMP_TAPES=<n>: keep the first n generated tapes (determinism self-test, vcheck.py selftest)
+        static int dump_left = getenv("VH_DUMP_TAPES") ? atoi(getenv("VH_DUMP_TAPES")) : 0;
+        static int dump_no = 0;
+        if (dump_left > 0 && !in_shrink) {
+            --dump_left;
+            char nm[64];
+            snprintf(nm, sizeof nm, "/gen-%05d.tape", dump_no++);
+            fe::write_tape(fe::g_outdir + nm, tape.data(), tape.size());
+        }
         VhReport r;
         memset(&r, 0, sizeof r);
         vh_run(tape.data(), tape.size(), &r);
